@@ -55,6 +55,13 @@ class VLoop(asyncio.BaseEventLoop):
 
     def advance(self, dticks):
         """Move the clock forward, running every timer callback at exactly its deadline."""
+        if dticks:
+            self.run_until_complete(self.aadvance(dticks))
+
+    async def aadvance(self, dticks):
+        """`advance` from inside a coroutine running on this loop.  After the clock is set to a
+        deadline the coroutine yields twice: in the first loop iteration its own resumption runs
+        before the due timer callbacks, in the second it resumes after them."""
         target = self._vticks + dticks
         while True:
             w = self._next_timer()
@@ -64,9 +71,11 @@ class VLoop(asyncio.BaseEventLoop):
             if wt != int(wt):
                 raise HarnessError(f"timer deadline {w!r} is not on the tick grid")
             self._vticks = max(self._vticks, int(wt))
-            self.run_until_complete(_noop())
+            await asyncio.sleep(0)
+            await asyncio.sleep(0)
+            if self._next_timer() == w:
+                raise HarnessError("a due timer did not run")
         self._vticks = target
-        self.run_until_complete(_noop())
 
     def cancel_all(self):
         for h in list(self._scheduled):
@@ -206,7 +215,7 @@ class World:
         from aiocoap.blockwise import Block1Spool, Block2Cache
         self.direct = [(Block1Spool(), Block2Cache()) for _ in range(n)]
 
-    def request_direct(self, res_index, assemble, msg, script_response):
+    async def request_direct(self, res_index, assemble, msg, script_response):
         """The same request against a bare spool/cache pair, wired as `_render_to_pipe` wires
         them; exceptions are reported by class and rendered with their own `to_message`."""
         from aiocoap import Message, error
@@ -229,10 +238,10 @@ class World:
             except Exception as e:
                 return Message(code=self.aiocoap.Code(160)), "escaped:" + type(e).__name__
 
-        res, exc = self.loop.run_until_complete(go())
+        res, exc = await go()
         return res, exc, self.seen_snap[n_before:]
 
-    def request(self, res_index, assemble, msg, script_response):
+    async def request(self, res_index, assemble, msg, script_response):
         """One request through the real `render_to_pipe` behind the real `error_to_message`.
         Returns (response message, exception class name or None, list of handler snapshots)."""
         from aiocoap.pipe import Pipe, error_to_message
@@ -253,7 +262,7 @@ class World:
                 raised.append(e)
                 inner.add_exception(e)
 
-        self.loop.run_until_complete(go())
+        await go()
         msgs = [e for e in events if e.message is not None]
         if len(msgs) != 1 or not msgs[0].is_last:
             raise HarnessError(f"expected exactly one final response, got {events!r}")
